@@ -446,6 +446,7 @@ func TestLateRegistrations(t *testing.T) {
 			sawSub   string
 			wantPub  string // the decorators registered before this handler was started, in order
 			wantSub  string
+			handle   *message.Handler
 		}
 		addHandler := func(name string) *hT {
 			h := &hT{name: name, sub: lib.NewScriptSub(""), pub: lib.NewScriptPub("")}
@@ -456,6 +457,7 @@ func TestLateRegistrations(t *testing.T) {
 				mu.Unlock()
 				return []*message.Message{message.NewMessage("out-of-"+name, nil)}, nil
 			})
+			h.handle = handle
 			own := rapid.IntRange(0, 2).Draw(t, "ownMiddlewares")
 			var ownIDs []int
 			for i := 0; i < own; i++ {
@@ -540,6 +542,20 @@ func TestLateRegistrations(t *testing.T) {
 				// no router-level registration in this phase
 			} else {
 				addRouterLevel("routerLevelLate")
+			}
+			// a handler may be stopped before the next ones are added: what belonged to it (or to handlers that are still
+			// running) never shows up on a handler added later
+			if len(running) >= 2 && rapid.IntRange(0, 2).Draw(t, "stopARunningHandlerFirst") == 0 {
+				k := rapid.IntRange(0, len(running)-2).Draw(t, "stoppedHandler")
+				victim := running[k]
+				victim.handle.Stop()
+				select {
+				case <-victim.handle.Stopped():
+				case <-time.After(lib.Live):
+					t.Fatalf("harness: handler %s did not stop", victim.name)
+				}
+				time.Sleep(time.Millisecond) // let it deregister
+				running = append(running[:k:k], running[k+1:]...)
 			}
 			// decorators may be added to a running router too: they act on the handlers that are started afterwards
 			addDecorators(rapid.SampledFrom([]int{0, 0, 1, 2}).Draw(t, "decoratorsAddedWhileRunning"))
